@@ -6,6 +6,7 @@ import Uom.Proofs.FlCanonical
 import Uom.Proofs.FlFold
 import Uom.Proofs.BodyEq.Conv
 import Uom.Proofs.OracleSound
+import Uom.Proofs.BodyEq.Powi
 /-!
 # C03 — unit conversion on construction and read-back is numerically faithful (floats)
 
@@ -215,5 +216,18 @@ theorem src_from_base (N : NumTy) (env : Env N) (v : N.S.V) :
   BodyEq.from_base_eq N env v
 
 end SourceTie
+
+/-! ### tie to the source: the float `ConversionFactor::powi` regenerated from /repo/src/lib.rs on this run -/
+section SourceTieRx
+open Uom.Rx Uom.Gen.RxBody Uom.BodyEq.Powi
+
+/-- the source's `match e.cmp(&0)` dispatch is `flPowi` (one / pow of the reciprocal / pow), for every
+    factor and exponent — the function the `pow` lines of the correspondence check compare bit for bit -/
+theorem src_powi_float (f : Fmt) (c : Fl) (e : Int) :
+    run (envPowi (Fl.one f) (Fl.recip f) (powNat (Fl.one f) (Fl.mul f)))
+        lib_ConversionFactor_Self_for_V_powi_Float [.host c, .int e] =
+      (.val (.host (flPowi f c e)), []) := powi_float_eq_flPowi f c e
+
+end SourceTieRx
 
 end Uom.C03
